@@ -16,7 +16,7 @@ RULE = ("qr cases = container (restricted array / unrestricted list, n_up == n_d
         "conditioning (random, cond up to 1e8, scaled columns) x trial kind for the overlap identity; init cases = trial kind x sector x "
         "restricted flag x trial class (closed, open shell, spin-broken, orthogonal up/dn spaces); non-trivial = walkers not already "
         "orthonormal / initial walkers returned or refused")
-MIN_NONTRIVIAL = {"quick": 80, "thorough": 800}
+MIN_NONTRIVIAL = {"quick": 80, "thorough": 500}
 TIMEOUT = {"quick": 1200, "thorough": 5400}
 ASSUMPTIONS = ["full-column-rank complex walker batches", "initial-walker overlap threshold 1e-3 relative to |psi_T| (the generator's own threshold)"]
 REQUIRED_COUNTERS = {"qr_batches": 40, "overlap_identities": 40, "init_calls": 30}
